@@ -636,7 +636,10 @@ func AuthResponseFormPost(res http.ResponseWriter, redirectURI string, response 
 }
 
 func setFragment(uri *url.URL, params url.Values) string {
-	uri.Fragment = params.Encode()
+	// params.Encode() is already percent-encoded: it is the raw fragment.
+	// Assigning it to Fragment makes String() escape the escapes a second time.
+	uri.RawFragment = params.Encode()
+	uri.Fragment, _ = url.PathUnescape(uri.RawFragment)
 	return uri.String()
 }
 
